@@ -142,6 +142,51 @@ def main():
     assert r == "sat" and m.eval(i.e).as_long() == 2
     assert ite(True, 1, 2) == 1
     Ctx.current = None
+    # int() / floor() / ceil() of symbolic reals: every path's model must agree with Python on exact rationals
+    import math
+
+    def h(x, y):
+        a = int(x * 3)
+        b = math.floor(y * 2 - x)
+        c = math.ceil(x - y)
+        return a + 10 * b + 100 * c + 1000 * int(-x * 2)
+
+    for vals, res, pc in explore(h, lambda ctx: [ctx.real("x", -2, 2), ctx.real("y", -2, 2)]):
+        paths_total += 1
+        x, y = Fraction(vals["x"]), Fraction(vals["y"])
+        want = h(x, y)
+        if want != res:
+            bad += 1
+            print(f"MISMATCH int/floor/ceil: {vals} symbolic {res} python {want}")
+    # exists() with a fork inside its thunk (list indexing by a drawn value) and nothing left behind on the path
+    ctx = Ctx()
+    Ctx.current = ctx
+    items = [10, 20, 30]
+    k0 = ctx.int("k0", 0, 2)
+    t_before, pc_before = len(ctx.trace), len(ctx.pc)
+    for want in items:
+        if not ctx.exists(lambda want=want: items[ctx.int(ctx.uniq("d"), 0, 2)] == want, "selftest-exists"):
+            bad += 1
+            print(f"exists(): no witness for {want}")
+    if ctx.exists(lambda: items[ctx.int(ctx.uniq("d"), 0, 1)] == 30, "selftest-exists-negative"):
+        bad += 1
+        print("exists(): witness claimed for an unreachable item")
+    if (len(ctx.trace), len(ctx.pc)) != (t_before, pc_before) or ctx.children:
+        bad += 1
+        print("exists(): decisions of the thunk leaked onto the path")
+    # box_volume: two uniform variates cut by linear comparisons
+    u, v = ctx.real("u", 0, 1, hi_strict=True), ctx.real("v", 0, 1, hi_strict=True)
+    ctx.assume(u * 4 < 3)
+    ctx.assume(v * 5 >= 1)
+    ctx.assume(v < Fraction(1, 2))
+    if ctx.box_volume([u, v]) != Fraction(3, 4) * (Fraction(1, 2) - Fraction(1, 5)):
+        bad += 1
+        print("box_volume: wrong volume", ctx.box_volume([u, v]))
+    ctx.assume(u < v)
+    if ctx.box_volume([u, v]) is not None:
+        bad += 1
+        print("box_volume: a non-box region was measured")
+    Ctx.current = None
     print(f"engine self-test: {n} int programs + {n // 3} real programs, {paths_total} paths, {bad} problems")
     sys.exit(1 if bad else 0)
 
